@@ -236,17 +236,27 @@ impl Wal {
 			Err(e) => return Err(Error::IO(IOError::new(e.kind(), &e.to_string()))),
 		}
 
-		// Parse the record type from header byte 6
+		// Parse the record type from header byte 6. A first record that is damaged
+		// (unknown type, unknown or missing compression byte) is not for this function
+		// to judge: readers report it as corruption and the recovery mode decides
+		// whether the segment is repaired or the open is refused. Failing here would
+		// make the store unopenable in every recovery mode.
 		let record_type_byte = header[6];
-		let record_type = RecordType::from_u8(record_type_byte)?;
+		let record_type = match RecordType::from_u8(record_type_byte) {
+			Ok(t) => t,
+			Err(_) => return Ok(CompressionType::None),
+		};
 
 		if record_type == RecordType::SetCompressionType {
 			// Read the compression type byte (length is in bytes 4-5)
 			let length = u16::from_be_bytes([header[4], header[5]]);
 			if length >= 1 {
 				let mut compression_byte = [0u8; 1];
-				file.read_exact(&mut compression_byte)?;
-				return CompressionType::from_u8(compression_byte[0]);
+				if file.read_exact(&mut compression_byte).is_ok() {
+					if let Ok(compression_type) = CompressionType::from_u8(compression_byte[0]) {
+						return Ok(compression_type);
+					}
+				}
 			}
 		}
 
